@@ -3,6 +3,18 @@
 #include "rc_io.h"
 #include "staleness.inc"      // static time_t refreshStaleness(const StoreEntry *, time_t, const time_t, const RefreshPattern *, stale_flags *)
 #include "check.inc"          // static int refreshCheck(const StoreEntry *, HttpRequest *, time_t)
+#if defined(T_CACHABLE) || defined(RS_NATIVE)
+#include "cachable.inc"       // bool refreshIsCachable(const StoreEntry *)
+#endif
+#if defined(T_LIMITS) || defined(RS_NATIVE)
+// the REAL rule look-ups, under other names: refreshCheck() above keeps calling the assumed models of stubs.h, whose contract
+// (nullptr or one rule of the list) is what targets limits/first_dot establish for the real text
+#define refreshLimits real_refreshLimits
+#define refreshFirstDotRule real_refreshFirstDotRule
+#include "limits.inc"         // const RefreshPattern *refreshLimits(const char *url); static const RefreshPattern *refreshFirstDotRule()
+#undef refreshLimits
+#undef refreshFirstDotRule
+#endif
 
 extern "C" {
 
@@ -34,72 +46,76 @@ int g_rc_no_cache;             // request->flags.noCache after the call
 
 int rs_refreshCheck(const long *in, double pct)
 {
-    static const char url[] = "http://example.test/";
-    HttpHdrCc repCc;
-    repCc.minFreshSet = repCc.maxAgeSet = repCc.maxStaleSet = false;
-    repCc.minFreshV = repCc.maxAgeV = repCc.maxStaleV = 0;
-    repCc.immutable = in[RC_REP_IMMUTABLE] != 0;
-    repCc.staleIfErrorSet = in[RC_REP_SIE_SET] != 0;
-    repCc.staleIfErrorV = (int32_t)in[RC_REP_SIE];
-    MemObject mem;
-    mem.id = url;
-    mem.rep.cache_control = in[RC_REP_HAVE_CC] ? &repCc : nullptr;
-    StoreEntry e;
-    e.timestamp = in[RC_TIMESTAMP];
-    e.expires = in[RC_EXPIRES];
-    e.lastModified_ = in[RC_LASTMOD];
-    e.flags = (uint16_t)(in[RC_ENTRY_FLAGS] & 0xFFFF);
-    e.mem_obj = in[RC_HAVE_MEM] ? &mem : nullptr;
-
-    HttpHdrCc reqCc;
-    reqCc.immutable = reqCc.staleIfErrorSet = false;
-    reqCc.staleIfErrorV = 0;
-    reqCc.minFreshSet = in[RC_REQ_MINFRESH_SET] != 0;
-    reqCc.minFreshV = (int32_t)in[RC_REQ_MINFRESH];
-    reqCc.maxAgeSet = in[RC_REQ_MAXAGE_SET] != 0;
-    reqCc.maxAgeV = (int32_t)in[RC_REQ_MAXAGE];
-    reqCc.maxStaleSet = in[RC_REQ_MAXSTALE_SET] != 0;
-    reqCc.maxStaleV = (int32_t)in[RC_REQ_MAXSTALE];
-    HttpRequest req;
-    req.cache_control = in[RC_REQ_HAVE_CC] ? &reqCc : nullptr;
-    req.uri = url;
-    req.flags.noCache = false;
-    req.flags.failOnValidationError = false;
-    req.flags.ims = in[RC_REQ_IMS] != 0;
-    req.flags.ignoreCc = in[RC_REQ_IGNORE_CC] != 0;
-    req.flags.nocacheHack = in[RC_REQ_NOCACHE_HACK] != 0;
-
-    RefreshPattern pat;
-    pat.min = in[RC_PAT_MIN];
-    pat.pct = pct;
-    pat.max = in[RC_PAT_MAX];
-    pat.max_stale = (int)in[RC_PAT_MAX_STALE];
-    pat.flags.refresh_ims = in[RC_PAT_REFRESH_IMS] != 0;
-    pat.flags.override_expire = in[RC_PAT_OVERRIDE_EXPIRE] != 0;
-    pat.flags.override_lastmod = in[RC_PAT_OVERRIDE_LASTMOD] != 0;
-    pat.flags.reload_into_ims = in[RC_PAT_RELOAD_INTO_IMS] != 0;
-    pat.flags.ignore_reload = in[RC_PAT_IGNORE_RELOAD] != 0;
-    pat.flags.store_stale = pat.flags.ignore_no_store = pat.flags.ignore_private = false;
-    // the implicit default rule, as constructed by RefreshPattern(nullptr) in src/RefreshPattern.h
-    DefaultRefresh.min = 0;
-    DefaultRefresh.pct = 0.20;
-    DefaultRefresh.max = 259200;
-    DefaultRefresh.max_stale = -1;
-    DefaultRefresh.flags.refresh_ims = DefaultRefresh.flags.store_stale = DefaultRefresh.flags.override_expire =
-        DefaultRefresh.flags.override_lastmod = DefaultRefresh.flags.reload_into_ims = DefaultRefresh.flags.ignore_reload =
-        DefaultRefresh.flags.ignore_no_store = DefaultRefresh.flags.ignore_private = false;
-    g_matched = in[RC_WHICH_RULE] == 0 ? &pat : nullptr;
-    g_dot = in[RC_WHICH_RULE] == 1 ? &pat : nullptr;
-
-    Config.onoff.refresh_all_ims = (int)in[RC_CFG_REFRESH_ALL_IMS];
-    Config.onoff.reload_into_ims = (int)in[RC_CFG_RELOAD_INTO_IMS];
-    Config.maxStale = in[RC_CFG_MAX_STALE];
-    squid_curtime = in[RC_NOW];
-
+#include "rc_setup.inc"
     const int code = refreshCheck(&e, in[RC_HAVE_REQUEST] ? &req : nullptr, in[RC_DELTA]);
     g_rc_fail_on_validation = req.flags.failOnValidationError;
     g_rc_no_cache = req.flags.noCache;
     return code;
 }
+
+#if defined(T_CACHABLE) || defined(RS_NATIVE)
+int g_rc_store_total;          // refreshCounts[rcStore].total after the call
+
+int rs_refreshIsCachable(const long *in, double pct)
+{
+#include "rc_setup.inc"
+    (void)req;
+    const bool r = refreshIsCachable(&e);
+    g_rc_store_total = refreshCounts[rcStore].total;
+    return r ? 1 : 0;
+}
+int rs_storeCount(int code) { return (code >= 0 && code <= STALE_DEFAULT) ? refreshCounts[rcStore].status[code] : -1; }
+
+#endif
+
+#if defined(T_LIMITS) || defined(RS_NATIVE)
+// ---- refreshLimits() / refreshFirstDotRule() over a configured list of at most RL_MAX rules ----
+#define RL_MAX 4
+static RefreshPattern rl_node[RL_MAX];
+static RegexPattern rl_regex[RL_MAX];
+unsigned long g_rl_tests[RL_MAX], g_rl_count[RL_MAX];     // stats.matchTests / stats.matchCount after the call, minus their values before
+
+static void rl_build(int n, int match_bits, int dot_bits, const unsigned long *tests0, const unsigned long *count0)
+{
+    for (int i = 0; i < RL_MAX; ++i) {
+        rl_regex[i].matches = ((match_bits >> i) & 1) != 0;
+        rl_regex[i].dot = ((dot_bits >> i) & 1) != 0;
+        rl_node[i].regex_ = &rl_regex[i];                 // explicit rules own a regex (RefreshPattern's constructor)
+        rl_node[i].next = (i + 1 < n) ? &rl_node[i + 1] : nullptr;
+        rl_node[i].stats.matchTests = tests0[i];
+        rl_node[i].stats.matchCount = count0[i];
+    }
+    Config.Refresh = n > 0 ? &rl_node[0] : nullptr;
+}
+static int rl_index(const RefreshPattern *r)
+{
+    if (!r) return -1;
+    for (int i = 0; i < RL_MAX; ++i)
+        if (r == &rl_node[i]) return i;
+    return -2;      // not a rule of the list
+}
+static void rl_stats(const unsigned long *tests0, const unsigned long *count0)
+{
+    for (int i = 0; i < RL_MAX; ++i) {
+        g_rl_tests[i] = rl_node[i].stats.matchTests - tests0[i];
+        g_rl_count[i] = rl_node[i].stats.matchCount - count0[i];
+    }
+}
+// returns the index of the rule answered, -1 for nullptr
+int rs_refreshLimits(int n, int match_bits, int dot_bits, const unsigned long *tests0, const unsigned long *count0)
+{
+    rl_build(n, match_bits, dot_bits, tests0, count0);
+    const int r = rl_index(real_refreshLimits("http://example.test/"));
+    rl_stats(tests0, count0);
+    return r;
+}
+int rs_refreshFirstDotRule(int n, int match_bits, int dot_bits, const unsigned long *tests0, const unsigned long *count0)
+{
+    rl_build(n, match_bits, dot_bits, tests0, count0);
+    const int r = rl_index(real_refreshFirstDotRule());
+    rl_stats(tests0, count0);
+    return r;
+}
+#endif
 
 }
